@@ -121,49 +121,68 @@ Theorem C12_mime_control_variate_is_cohort_gradient : forall p (clients : list m
 Proof. exact (sg_q_is_cohort_gradient grad split grad_length). Qed.
 End C12.
 
-(* ---- the instance evaluated by the correspondence check satisfies the hypotheses ---- *)
+(* Regularised objective (grad = mean example gradient g0 + regulariser gradient rg): the
+   control variate c of C12_mime_sgd_one_step_is_fullbatch_step, instantiated with that grad,
+   is the cohort mean of the example gradients plus the regulariser gradient exactly once;
+   so a Mime round is  p - (server_lr * eta) * (mean example gradient + rg p) *)
+Theorem C12_mime_fullbatch_gradient_includes_regularizer :
+  forall {K U B : Type} (g0 : list Q -> B -> U -> list Q) (rg : list Q -> list Q) (split : K -> K * U),
+  (forall p b u, length (g0 p b u) = length p) -> (forall p, length (rg p) = length p) ->
+  forall p (clients : list (mclient (K := K) (B := B))),
+  0 < wtot (cohort_batch_grads g0 split p clients) ->
+  sg_q (reg_grad g0 rg) split p clients =v=
+  vadd (wmean_batch (length p) (cohort_batch_grads g0 split p clients)) (rg p).
+Proof. exact (@sg_q_regularized). Qed.
+
+(* ---- the instance evaluated by the correspondence check satisfies the hypotheses ----
+   its gradient is ls_grad_reg reg = batch gradient of the least-squares loss + 2*reg*w
+   (fedjax.grad(per_example_loss, l2_regularizer(reg)); reg = 0: no regularizer) *)
+Theorem C12_ls_gradient_is_regularized : forall reg p b u,
+  ls_grad_reg reg p b u =v= reg_grad (fun w batch nu => batch_grad w batch nu) (fun w => vscale (2 * reg) w) p b u.
+Proof. exact ls_grad_reg_is_reg_grad. Qed.
+
 Notation lsclient := (client (K := key) (B := list example)).
 Notation lsmclient := (mclient (K := key) (B := list example)).
 
-Theorem C12_ls_fedprox_mu0_eq_fedavg : forall co so mu (cohorts : list (list lsclient)) p os,
+Theorem C12_ls_fedprox_mu0_eq_fedavg : forall reg co so mu (cohorts : list (list lsclient)) p os,
   mu == 0 -> Forall (fun cl => NoDup (map c_id cl)) cohorts ->
   exists q s dgs q' s' dgs',
-    fedprox_runs ls_grad split_key ls_copt_init (ls_copt_apply co) (ls_sopt so) mu (p, os) cohorts = Some (q, s, dgs) /\
-    fedavg_runs ls_grad split_key ls_copt_init (ls_copt_apply co) (ls_sopt so) (p, os) cohorts = Some (q', s', dgs') /\
+    fedprox_runs (ls_grad_reg reg) split_key ls_copt_init (ls_copt_apply co) (ls_sopt so) mu (p, os) cohorts = Some (q, s, dgs) /\
+    fedavg_runs (ls_grad_reg reg) split_key ls_copt_init (ls_copt_apply co) (ls_sopt so) (p, os) cohorts = Some (q', s', dgs') /\
     q =v= q' /\ s =v= s' /\ Forall2 (fun dg dg' => map fst dg = map fst dg') dgs dgs'.
 Proof. exact ls_fedprox_mu0_runs. Qed.
 
-Theorem C12_ls_hypcluster_eq_fedavg : forall co so (cohorts : list (list lsclient)) p os,
+Theorem C12_ls_hypcluster_eq_fedavg : forall reg co so (cohorts : list (list lsclient)) p os,
   Forall (fun cl => NoDup (map c_id cl)) cohorts -> Forall (fun cl => (0 < total_examples cl)%Z) cohorts ->
   exists q s q' s' dgs,
-    iter_rounds (hypcluster ls_grad split_key ls_split_pair ls_copt_init (ls_copt_apply co) (ls_sopt so) (fun _ => O)) [(p, os)] cohorts
+    iter_rounds (hypcluster (ls_grad_reg reg) split_key ls_split_pair ls_copt_init (ls_copt_apply co) (ls_sopt so) (fun _ => O)) [(p, os)] cohorts
       = Some [(q, s)] /\
-    fedavg_runs ls_grad split_key ls_copt_init (ls_copt_apply co) (ls_sopt so) (p, os) (map (map (rekey ls_split_pair)) cohorts)
+    fedavg_runs (ls_grad_reg reg) split_key ls_copt_init (ls_copt_apply co) (ls_sopt so) (p, os) (map (map (rekey ls_split_pair)) cohorts)
       = Some (q', s', dgs) /\ q =v= q' /\ s =v= s'.
 Proof. exact ls_hypcluster_runs. Qed.
 
-Theorem C12_ls_hypcluster_eq_fedavg_plain_sgd_server : forall co so (cohorts : list (list lsclient)) p os,
+Theorem C12_ls_hypcluster_eq_fedavg_plain_sgd_server : forall reg co so (cohorts : list (list lsclient)) p os,
   o_mom so == 0 -> Forall (fun cl => NoDup (map c_id cl)) cohorts ->
   exists q s q' s' dgs,
-    iter_rounds (hypcluster ls_grad split_key ls_split_pair ls_copt_init (ls_copt_apply co) (ls_sopt so) (fun _ => O)) [(p, os)] cohorts
+    iter_rounds (hypcluster (ls_grad_reg reg) split_key ls_split_pair ls_copt_init (ls_copt_apply co) (ls_sopt so) (fun _ => O)) [(p, os)] cohorts
       = Some [(q, s)] /\
-    fedavg_runs ls_grad split_key ls_copt_init (ls_copt_apply co) (ls_sopt so) (p, os) (map (map (rekey ls_split_pair)) cohorts)
+    fedavg_runs (ls_grad_reg reg) split_key ls_copt_init (ls_copt_apply co) (ls_sopt so) (p, os) (map (map (rekey ls_split_pair)) cohorts)
       = Some (q', s', dgs) /\ q =v= q'.
 Proof. exact ls_hypcluster_runs_plain. Qed.
 
-Theorem C12_ls_mimelite_sgd_lr1_eq_fedavg : forall co (cohorts : list (list lsmclient)) p s os,
+Theorem C12_ls_mimelite_sgd_lr1_eq_fedavg : forall reg co (cohorts : list (list lsmclient)) p s os,
   o_mom co == 0 -> Forall (fun cl => NoDup (map c_id (map fst cl))) cohorts ->
   exists q s1 q' os1 dgs,
-    iter_rounds (mimelite ls_grad split_key (ls_copt_apply co) 1) (p, s) cohorts = Some (q, s1) /\
-    fedavg_runs ls_grad split_key ls_copt_init (ls_copt_apply co) (ls_sopt (mkSgd 1 0 false)) (p, os) (map (map fst) cohorts)
+    iter_rounds (mimelite (ls_grad_reg reg) split_key (ls_copt_apply co) 1) (p, s) cohorts = Some (q, s1) /\
+    fedavg_runs (ls_grad_reg reg) split_key ls_copt_init (ls_copt_apply co) (ls_sopt (mkSgd 1 0 false)) (p, os) (map (map fst) cohorts)
       = Some (q', os1, dgs) /\ q =v= q'.
 Proof. exact ls_mimelite_runs. Qed.
 
-Theorem C12_ls_mime_sgd_one_step_is_fullbatch_step : forall co slr (cohorts : list (list lsmclient)) p s,
+Theorem C12_ls_mime_sgd_one_step_is_fullbatch_step : forall reg co slr (cohorts : list (list lsmclient)) p s,
   o_mom co == 0 ->
   Forall (fun cl => NoDup (map c_id (map fst cl)) /\ Forall one_step_client cl /\ (0 < total_examples (map fst cl))%Z) cohorts ->
-  exists q s1, iter_rounds (mime ls_grad split_key (ls_copt_apply co) slr) (p, s) cohorts = Some (q, s1) /\
-    fullbatch_chain ls_grad split_key (o_lr co) slr p cohorts q.
+  exists q s1, iter_rounds (mime (ls_grad_reg reg) split_key (ls_copt_apply co) slr) (p, s) cohorts = Some (q, s1) /\
+    fullbatch_chain (ls_grad_reg reg) split_key (o_lr co) slr p cohorts q.
 Proof. exact ls_mime_runs. Qed.
 
 (* The guard of C12_hypcluster_one_cluster_eq_fedavg is needed: with a momentum server
@@ -172,9 +191,9 @@ Proof. exact ls_mime_runs. Qed.
 Theorem C12_hypcluster_eq_fedavg_unguarded_refuted :
   exists co so cohorts p os q s q' s' dgs,
     Forall (fun cl => NoDup (map c_id cl)) cohorts /\
-    iter_rounds (hypcluster ls_grad split_key ls_split_pair ls_copt_init (ls_copt_apply co) (ls_sopt so) (fun _ => O)) [(p, os)] cohorts
+    iter_rounds (hypcluster (ls_grad_reg 0) split_key ls_split_pair ls_copt_init (ls_copt_apply co) (ls_sopt so) (fun _ => O)) [(p, os)] cohorts
       = Some [(q, s)] /\
-    fedavg_runs ls_grad split_key ls_copt_init (ls_copt_apply co) (ls_sopt so) (p, os) (map (map (rekey ls_split_pair)) cohorts)
+    fedavg_runs (ls_grad_reg 0) split_key ls_copt_init (ls_copt_apply co) (ls_sopt so) (p, os) (map (map (rekey ls_split_pair)) cohorts)
       = Some (q', s', dgs) /\ ~ q =v= q'.
 Proof. exact hypcluster_unguarded_refuted. Qed.
 
@@ -187,6 +206,8 @@ Print Assumptions C12_hypcluster_one_cluster_eq_fedavg.
 Print Assumptions C12_mimelite_sgd_lr1_eq_fedavg.
 Print Assumptions C12_mime_sgd_one_step_is_fullbatch_step.
 Print Assumptions C12_mime_control_variate_is_cohort_gradient.
+Print Assumptions C12_mime_fullbatch_gradient_includes_regularizer.
+Print Assumptions C12_ls_gradient_is_regularized.
 Print Assumptions C12_ls_fedprox_mu0_eq_fedavg.
 Print Assumptions C12_ls_hypcluster_eq_fedavg.
 Print Assumptions C12_ls_hypcluster_eq_fedavg_plain_sgd_server.
